@@ -337,14 +337,35 @@ impl DynGroup {
         // changed in this op.
 
         if !n_dyn_groups.is_empty() {
-            Self::apply_dyngroup_change(
-                qs,
-                &mut affected_uuids,
-                true,
-                &ident_internal,
-                dyn_groups,
-                n_dyn_groups.as_slice(),
-            )?;
+            // A dynamic group that a replication partner created reaches us through this
+            // (modify) path without ever having been cached here. Only groups we already
+            // know are expected to be in the cache.
+            let (known, unknown): (Vec<&Entry<_, _>>, Vec<&Entry<_, _>>) = n_dyn_groups
+                .iter()
+                .copied()
+                .partition(|e| dyn_groups.insts.contains_key(&e.get_uuid()));
+
+            if !known.is_empty() {
+                Self::apply_dyngroup_change(
+                    qs,
+                    &mut affected_uuids,
+                    true,
+                    &ident_internal,
+                    dyn_groups,
+                    known.as_slice(),
+                )?;
+            }
+
+            if !unknown.is_empty() {
+                Self::apply_dyngroup_change(
+                    qs,
+                    &mut affected_uuids,
+                    false,
+                    &ident_internal,
+                    dyn_groups,
+                    unknown.as_slice(),
+                )?;
+            }
         }
 
         // If we modified anything else, check if a dyngroup is affected by it's change
